@@ -333,6 +333,12 @@ def _pairs(ctx):
     # geos source -> ll target (targets off the disk give inf)
     geos = {"proj": "geos", "h": 35785831.0, "lon_0": 0, "a": 6378169.0, "b": 6356583.8}
     out.append(("geos->ll", A("geos_s", geos, 40, 40, (-5570000, -5570000, 5570000, 5570000)), A("ll_t2", ll, 22, 14, (-85.0, 30.0, 20.0, 85.0))))
+    # a source that is itself a slice of a larger area (crop to a region of interest, then resample)
+    big = A("laea_big", laea, 46, 40, (-230000, -200000, 230000, 200000))
+    out.append(("sliced-src", big[5:33, 4:37], A("laea_t7", laea, 22, 18, (-150000, -120000, 120000, 110000))))
+    out.append(("sliced-src->stere", big[3:36, 6:40], A("st_t2", stere, 19, 16, (480000, -4300000, 780000, -4050000))))
+    # a very wide source: positions inside a source crop run into the thousands
+    out.append(("long-strip", A("laea_strip", laea, 2300, 6, (-1150000, -3000, 1150000, 3000)), A("laea_t8", laea, 41, 5, (-1100300, -2400, 1120900, 2300))))
     # random same-CRS / rotated pairs
     for k in range(2 if ctx.quick else 8):
         w, h = rng.randint(8, 30), rng.randint(8, 30)
@@ -481,6 +487,11 @@ def suite_areas(ctx):
         dtype = rng.choice([np.float32, np.float64])
         yy, xx = np.mgrid[0:src.height, 0:src.width]
         base = (3.0 * yy + 0.5 * xx + 0.25 * yy * xx + 7 * np.sin(yy * 1.3) * np.cos(xx * 0.7))
+        tight = label == "long-strip"
+        if tight:
+            # small magnitude, strong pixel-to-pixel variation: interpolation weights must be right to single precision
+            base = np.modf(np.abs(np.sin(yy * 12.9898 + xx * 78.233) * 43758.5453))[0]
+            dtype = np.float32
         data_np = (np.stack([base * (k + 1) + k for k in range(nb)]) if nb else base).astype(dtype)
         results = {}
         for cs in chunk_sets:
@@ -524,6 +535,8 @@ def suite_areas(ctx):
                         vals[method] = v1
                         exp, tie = _oracle_values(data_np, P, L, inside, method)
                         tol = (1e-4 if dtype is np.float32 else 1e-7) * (1 + np.abs(exp)) + (np.abs(data_np).max() * 2e-5 if method == "bilinear" else 0)
+                        if tight:
+                            tol = 2e-5 * np.ones_like(exp)
                         dec = inside & ~tie
                         wrong = dec & (np.isnan(v1) | (np.abs(np.nan_to_num(v1) - exp) > tol))
                         vout = outside & ~np.isnan(v1)
